@@ -5,6 +5,7 @@ import (
 	"encoding/json"
 	"errors"
 	"fmt"
+	"os"
 	"runtime"
 	"sync"
 	"time"
@@ -100,7 +101,21 @@ func runGapOne(in watchIn, upto int) (gapOut, error) {
 	return out, nil
 }
 
+// A gap case costs seconds of real time. The orchestrator's shrinker replays up to 120 candidates per round in
+// one `replay` process; only the first gapReplayBudget of them are executed (the first candidates are the
+// halves of the script list, which is where the useful reduction is), the others are refused, so that
+// minimising a failing case stays within seconds. `./check --replay` sends one case and is not affected.
+var gapReplays int
+
+const gapReplayBudget = 2
+
 func runGap(raw json.RawMessage) (interface{}, error) {
+	if len(os.Args) > 1 && os.Args[1] == "replay" {
+		gapReplays++
+		if gapReplays > gapReplayBudget {
+			return nil, fmt.Errorf("c11.watch_gap: replay budget of this process exhausted (candidate not run)")
+		}
+	}
 	var in gapIn
 	if err := json.Unmarshal(raw, &in); err != nil {
 		return nil, err
